@@ -15,7 +15,7 @@
        coherence; loads may read any coherence-allowed message): trip line (release/acquire), Latch fast path,
        and the whole left-right protocol, each with machine-checked refutations for the weakened orders. *)
 From GV Require Lockset TraceActs.
-From GV Require LatchProofs LatchViews LRProofs LRViews DeferredProofs TriggerMO WrapperTrace CowProofs CowMO Properties_C04.
+From GV Require LatchProofs LatchViews LRProofs LRViews DeferredProofs TriggerMO WrapperTrace CowProofs CowMO Properties_C04 RcuReadProofs Properties_C05 Properties_C12.
 From GV Require Properties_C19 Properties_C18 Properties_C17 Properties_C16.
 
 (* ================= layer 1: mutex-protected data ================= *)
@@ -74,6 +74,17 @@ Theorem latch_all_atomics_seq_cst : ltac:(let T := type of LatchProofs.all_atomi
 Proof. exact LatchProofs.all_atomics_seq_cst. Qed.
 Theorem trigger_mo_table : ltac:(let T := type of TriggerMO.trigger_mo_table in exact T).
 Proof. exact TriggerMO.trigger_mo_table. Qed.
+
+(* rcu_list: the memory order of every atomic site (relaxed at exactly three: the load of the log head before
+   the validating seq_cst CAS, the store into a record's next before the record is published by that CAS, the
+   load of m_tail under the write mutex; every other site seq_cst); the plain fields (deleted, zombie_node,
+   data) change only under the write mutex; no access ever touches a destroyed or freed cell *)
+Theorem rcu_mo_table : ltac:(let T := type of RcuReadProofs.mo_table in exact T).
+Proof. exact RcuReadProofs.mo_table. Qed.
+Theorem rcu_mutators_hold_mutex : ltac:(let T := type of Properties_C12.rcu_mutators_hold_mutex in exact T).
+Proof. exact Properties_C12.rcu_mutators_hold_mutex. Qed.
+Theorem rcu_no_uaf : ltac:(let T := type of Properties_C05.rcu_no_uaf in exact T).
+Proof. exact Properties_C05.rcu_no_uaf. Qed.
 
 (* ================= layer 3: Views semantics ================= *)
 (* trip line: release store / acquire load publish what the triggering thread wrote; relaxed on either side races *)
